@@ -8,6 +8,10 @@ os.makedirs(dst, exist_ok=True)
 shutil.copy(src + "/patch.diff", dst + "/patch.diff")
 shutil.copy(src + "/demo_test.rs", dst + "/demo_test.rs")
 m = json.load(open(src + "/meta.json"))
+import re
+_mm = re.match(r"(C\d\d)", str(m.get("property", "")).upper())
+if _mm:
+    m["property"] = _mm.group(1)
 m["kind"] = "defect"
 m["origin"] = "written by an independent sub-agent given only the property text and a scratch worktree (nothing from /verif)"
 m["confirmed"] = {
